@@ -986,3 +986,102 @@ func TestC18_AfterAnAcceptedNeighbour(t *testing.T) {
 	}
 	c18Drift.rec().Exhaustive()
 }
+
+// ---------------------------------------------------------------------------
+// Many requests with DIFFERENT parameters in flight at once. The request sequences above are dealt to a few concurrent
+// clients, but two requests with different digits / hash / period meet inside the same handler only now and then; a
+// handler that routes the request's parameters through something shared (a package default, a pooled struct that is
+// not reset) answers one request with the other's parameters. Here 8 clients fire 250 generate requests each, every
+// client with its own parameter set, and every answer is compared with the reference.
+
+type c18ParCase struct {
+	Ep string `json:"ep"` // totp-gen | hotp-gen | ocra-gen | totp-val
+}
+
+var c18Par = newPart("C18", "different-parameters-in-flight",
+	"complete: {totp-gen, totp-val, hotp-gen, ocra-gen} x 8 concurrent clients with pairwise different parameter sets (digits 6/8/9/10, three hashes, periods 30/60/7, skews, suites) x 250 requests each on reused connections; oracle: every answer is the RFC reference for that client's parameters; every case distinct and non-trivial",
+	func(c c18ParCase) verdict {
+		sv := server()
+		type client struct {
+			body []byte
+			path string
+			want string
+		}
+		var cl []client
+		for i := 0; i < 8; i++ {
+			key := []byte(fmt.Sprintf("client-%d-secret-key-%s", i, c.Ep))
+			dig := []int{6, 8, 9, 10, 6, 8, 10, 9}[i]
+			algo := i % 3
+			alg := []string{"SHA1", "SHA256", "SHA512"}[algo]
+			per := []int{30, 60, 7, 30, 45, 60, 7, 90}[i]
+			ts := uint64(1_700_000_000 + 1000*i)
+			switch c.Ep {
+			case "totp-gen":
+				b, _ := json.Marshal(map[string]any{"secret": ref.B32(key), "timestamp": ts, "digits": fmt.Sprint(dig), "algorithm": alg, "period": per})
+				cl = append(cl, client{b, "/totp/generate", ref.MustHOTP(key, ts/uint64(per), dig, algo)})
+			case "totp-val":
+				// the neighbouring step's code: accepted by the clients with skew 1, rejected by those with skew 0
+				skew := i % 2
+				code := ref.MustHOTP(key, ts/uint64(per)+1, dig, algo)
+				b, _ := json.Marshal(map[string]any{"secret": ref.B32(key), "code": code, "timestamp": ts, "digits": fmt.Sprint(dig), "algorithm": alg, "period": per, "skew": skew})
+				cl = append(cl, client{b, "/totp/validate", fmt.Sprint(skew == 1)})
+			case "hotp-gen":
+				b, _ := json.Marshal(map[string]any{"secret": ref.B32(key), "counter": 1000 + i, "digits": fmt.Sprint(dig), "algorithm": alg})
+				cl = append(cl, client{b, "/hotp/generate", ref.MustHOTP(key, uint64(1000+i), dig, algo)})
+			default:
+				cfg := ref.OCRACfg{Hash: algo, Digits: 4 + i%7, Q: true, QFormat: 1 + i%6, C: i%2 == 0, SessionNN: -1}
+				in := ref.OCRAIn{Q: []byte(fmt.Sprintf("%010d", i))}
+				if cfg.C {
+					in.C = []byte{0, 0, 0, 0, 0, 0, 0, byte(i)}
+				}
+				want, _ := ref.OCRA(key, cfg, in)
+				b, _ := json.Marshal(map[string]any{"secret": ref.B32(key), "suite": map[string]any{"hash_function": alg, "code_digits": cfg.Digits, "challenge_format": cfg.QFormat,
+					"include_counter": cfg.C, "include_challenge": true, "include_password": false, "include_session": false, "include_timestamp": false, "password_hash": 0, "timestep": 0},
+					"input": map[string]any{"counter_hex": fmt.Sprintf("%x", in.C), "challenge_hex": fmt.Sprintf("%x", in.Q)}})
+				cl = append(cl, client{b, "/ocra/generate", want})
+			}
+		}
+		var wg sync.WaitGroup
+		var mu sync.Mutex
+		var firstErr string
+		start := make(chan struct{})
+		for i := range cl {
+			wg.Add(1)
+			go func(i int) {
+				defer wg.Done()
+				<-start
+				for k := 0; k < 250; k++ {
+					r := sv.do("POST", cl[i].path, cl[i].body, false, 15*time.Second)
+					got := r.str("code")
+					if c.Ep == "totp-val" {
+						v, _ := r.JSON["valid"].(bool)
+						got = fmt.Sprint(v)
+					}
+					if r.Err != nil || r.Status != 200 || got != cl[i].want {
+						mu.Lock()
+						if firstErr == "" {
+							firstErr = fmt.Sprintf("client %d request %d: POST %s %s -> %s; the reference for THIS request's parameters is %s (seven other clients send other parameters at the same time)", i, k, cl[i].path, cl[i].body, r.brief(), cl[i].want)
+						}
+						mu.Unlock()
+						return
+					}
+				}
+			}(i)
+		}
+		close(start)
+		wg.Wait()
+		if firstErr != "" {
+			return bad(true, []string{"ep=" + c.Ep}, "%s", firstErr)
+		}
+		return ok(true, "ep="+c.Ep)
+	})
+
+func TestC18_DifferentParametersInFlight(t *testing.T) {
+	defer c18Par.rec().Flush()
+	for i, ep := range []string{"totp-gen", "totp-val", "hotp-gen", "ocra-gen"} {
+		if ev.Mine(i) {
+			c18Par.each(t, c18ParCase{Ep: ep})
+		}
+	}
+	c18Par.rec().Exhaustive()
+}
